@@ -28,7 +28,7 @@ RULE = (
     '(quick) / <=3 (thorough) requests at every position of 5 canonical programs.  Non-trivial = a request landed '
     'while live and stepping, paused, waiting or with another request pending; distinct = distinct event-log digest.'
 )
-BUDGET = {'quick': (60000, 55), 'thorough': (4_000_000, 600)}
+BUDGET = {'quick': (150000, 55), 'thorough': (4_000_000, 600)}
 COMPONENTS = common.COMPONENTS
 ASSUMPTIONS = [
     'FIFO ready queue; requests are placed between loop handles, not inside listener callbacks (as quantified)',
